@@ -30,11 +30,11 @@ func init() {
 			c13Cells()) +
 			"non-trivial = every cell; distinct = cell x repetition",
 		Assumptions: []string{
-			"'already subscribed by this client' is exercised by re-sending the client's original entry request after it is subscribed (the public API returns the existing instance for a second open of the same key)",
+			"'already subscribed by this client' is exercised by re-sending the client's original entry request after it is subscribed (the public API returns the existing instance for a second open of the same key); for create the cell additionally sends the request a second instance of the same client id would send (new DUID, creation snapshot) and demands refusal with unchanged store",
 			"MongoDB is the in-memory stand-in; refused = RPC error or error-bit pack",
 		},
 		Trusted:    []string{"fakemongo (dump / diff)", "fakemqtt", "harness transport (direct mode)"},
-		Cases:      func(t string) int { return c13Cells() * tierN(t, 2, 20) },
+		Cases:      func(t string) int { return c13Cells() * tierN(t, 4, 20) },
 		Floor:      func(t string) int { return c13Cells() },
 		Exhaustive: func(t string) bool { return true },
 		Run:        runC13,
@@ -314,6 +314,53 @@ func runC13(c *core.Case) *core.Result {
 		}
 		if res := mustSync(X); res != nil {
 			return res
+		}
+		// the same client id enters the key AGAIN with a new instance (new DUID, creation
+		// snapshot operation, the mode's option bits) - what a second instance of client X would
+		// send. For create the statement is explicit: the key exists, so the request is refused
+		// and nothing stored changes.
+		if mode == bed.Create {
+			z := w.b.NewClient("colA", "X-again")
+			zd := z.Open(key, typ, mode)
+			if zd != nil {
+				if r.Intn(2) == 0 {
+					w.localOp(zd)
+				}
+				req := z.BuildRequest()
+				req.Cuid = X.Model.CUID
+				for _, p := range req.PushPullPacks {
+					for _, o := range p.Operations {
+						if o.ID != nil {
+							o.ID.CUID = X.Model.CUID
+						}
+					}
+				}
+				c.Step("client X sends a second %s for key %s with a new DUID", mode, key)
+				before := w.b.DB.Flat(true)
+				ex2 := X.Send(req)
+				if ex2.Out.Panic != "" {
+					return c.Violation("server-panic", "second entry request panicked: %s", ex2.Out.Panic)
+				}
+				if ex2.Out.TimedOut {
+					if ex2.Out.Hang {
+						return c.Violation("request-hang", "second entry request never returned\n%s", clipDump(ex2.Out.Dump))
+					}
+					return c.Inconclusive("watchdog")
+				}
+				if !w.idle() {
+					return c.Inconclusive("idle")
+				}
+				if !ex2.Refused() {
+					return c.Violation("illegal-entry-accepted", "a second create of key %q by a client that is already subscribed to it (new DUID) was accepted by the server (response option %#x)", key, ex2.PackOf(key).GetOption())
+				}
+				if d := fakemongoDiff(before, w.b.DB.Flat(true)); len(d) > 0 {
+					return c.Violation("refused-but-changed", "the refused second create changed stored data: %v", d)
+				}
+				c.Count("second_create_by_subscribed_client_refused", 1)
+				if res := mustSync(X); res != nil {
+					return res
+				}
+			}
 		}
 	case other == "absent":
 		e := enter("X")
